@@ -72,6 +72,11 @@ func genScenarios(r *rng) []*scenario {
 				k++
 				out = append(out, genHidden(r, k))
 			}
+		case "again":
+			for i := 0; i < *pubN; i++ {
+				k++
+				out = append(out, genAgain(r, k))
+			}
 		case "shape":
 			out = append(out, genShape(r, *pubN)...)
 		case "gate":
